@@ -50,6 +50,11 @@ CLAIMED = {
          "No counterexample among generated interleavings of 1-4 hand-polled trigger tasks with barrier creation, wait, handle drop, barrier drop and task cancellation over all three reactions and overlapping value-set conditions: every matching trigger went to the earliest-created live matching barrier and only to it, wait() reported exactly the model queue in order, Suspend held the task until the handle was dropped and released it on its next poll, Noop never blocked, Panic panicked the triggering code, unmatched triggers returned at once and were reported nowhere; corruption events of shim reads inside a Sim reached Barrier<FsCorruption> exactly once each.",
          "Panic messages are those pinned by the crate's tests; a Suspend trigger whose barrier is dropped before wait() reported it is outside the property; io_uring ring reads do not fire the hook and are outside the property.",
          "DESIGN.md §6 C20"),
+ "C09": ("exploration",
+         "property-based testing (proptest) of generated socket/send/membership scripts against a routing model that derives a No/May/Must relation for every (send, socket) pair",
+         "No counterexample (other than the listed known finding) among generated scripts over 2-4 hosts in v4 and v6: every datagram received by a socket belonged to a send whose target set contains that socket (host + bound port for unicast with wildcard vs localhost binds and the connected-peer filter; hosts with the port bound for broadcast and only with the option enabled; members at send time for multicast), carried the sender's payload unaltered and cut only to the receive buffer, reported the expected source address, and was the first receipt of that send on that socket; on healthy links and within the receive capacity every targeted socket received exactly one copy, through recv_from, try_recv_from and readable paths.",
+         "fail_rate 0; exactly-one only asserted for sockets alive during the whole delivery window with stable connect state and never addressed by more datagrams than udp_capacity; unspecified corners (own-host multicast loop, loopback-bound sockets sending off-host) are May; known finding F-C09-1 (multicast datagram in flight reaches a later socket on the member's port) is excluded in the main search and asserted by its replay.",
+         "DESIGN.md §6 C09"),
 }
 
 PENDING_REASON = "check not built yet in this round (planned, see DESIGN.md §6); not claimed until its check exists and has been shown silent on the unchanged tree"
